@@ -103,7 +103,8 @@ Definition do_writes (d : dp) (ws : list write) : dp := fold_left do_write ws d.
 Record svc := Svc {
   s_name : N; s_cip : N; s_port : N; s_proto : N; s_np : N;
   s_ext : list N; s_lb : list N;
-  s_extlocal : bool; s_intlocal : bool; s_sticky : N; s_maglev : bool }.
+  s_extlocal : bool; s_intlocal : bool; s_sticky : N; s_maglev : bool;
+  s_exclude : bool (* annotation projectcalico.org/natExcludeService *) }.
 (* e_node: next hop of the route to the endpoint when it is a workload on another node, 0 otherwise *)
 Record ep := Ep { e_ip : N; e_port : N; e_ready : bool; e_local : bool; e_node : N }.
 Definition state := list (svc * list ep).
@@ -112,6 +113,7 @@ Definition podNP : N := 4294967295.
 Definition FLG_EXT_LOCAL : N := 1.
 Definition FLG_INT_LOCAL : N := 2.
 Definition FLG_MAGLEV : N := 8.
+Definition FLG_EXCLUDE : N := 4.
 Definition flag (b : bool) (f : N) : N := if b then f else 0.
 
 (* cidrEqual of syncer.go *)
@@ -149,19 +151,20 @@ Definition mkfv (u : unit_) (flags : N) : fval :=
 
 Definition unit_frontends (npips : list N) (u : unit_) : list (fkey * fval) :=
   let s := u_svc u in
+  let xf := flag (s_exclude s) FLG_EXCLUDE in   (* writeSvc: every frontend of an excluded service *)
   let main := (FK (s_cip s) (s_port s) (s_proto s),
                mkfv u (flag (s_intlocal s) FLG_INT_LOCAL
-                       + flag (s_maglev s && negb (u_count u =? 0)) FLG_MAGLEV)) in
+                       + flag (s_maglev s && negb (u_count u =? 0)) FLG_MAGLEV + xf)) in
   if negb (u_node u =? 0) then [main]
   else
     main
     :: map (fun a => (FK a (s_port s) (s_proto s),
                       mkfv u (flag (s_maglev s) FLG_MAGLEV + flag (s_extlocal s) FLG_EXT_LOCAL
-                              + flag (s_intlocal s) FLG_INT_LOCAL))) (s_lb s)
-    ++ map (fun a => (FK a (s_port s) (s_proto s), mkfv u (flag (s_maglev s) FLG_MAGLEV))) (s_ext s)
+                              + flag (s_intlocal s) FLG_INT_LOCAL + xf))) (s_lb s)
+    ++ map (fun a => (FK a (s_port s) (s_proto s), mkfv u (flag (s_maglev s) FLG_MAGLEV + xf))) (s_ext s)
     ++ (if s_np s =? 0 then []
         else map (fun a => (FK a (s_np s) (s_proto s),
-                            mkfv u (flag (s_extlocal s) FLG_EXT_LOCAL + flag (s_intlocal s) FLG_INT_LOCAL)))
+                            mkfv u (flag (s_extlocal s) FLG_EXT_LOCAL + flag (s_intlocal s) FLG_INT_LOCAL + xf)))
                  (filter (fun a => negb (s_intlocal s && (a =? podNP))) npips)).
 
 (* Maglev lookup table of a service: written for the service itself when it carries the maglev
@@ -193,7 +196,7 @@ Definition remote_nodes (eps : list ep) : list N :=
   dedup N.eqb (map e_node (filter (fun e => negb (e_node e =? 0)) eps)).
 (* the ServicePort handed to applySvc for a remote node: cluster IP := node, port := node port *)
 Definition remote_svc (s : svc) (node : N) : svc :=
-  Svc (s_name s) node (s_np s) (s_proto s) (s_np s) (s_ext s) (s_lb s) (s_extlocal s) (s_intlocal s) (s_sticky s) false.
+  Svc (s_name s) node (s_np s) (s_proto s) (s_np s) (s_ext s) (s_lb s) (s_extlocal s) (s_intlocal s) (s_sticky s) false (s_exclude s).
 
 Fixpoint visit_nodes (prev : prevmap) (next : N) (s : svc) (eps : list ep) (nodes : list N)
   : N * list unit_ :=
